@@ -129,7 +129,8 @@ _built = {}
 def replay_binary(profile='dev'):
     if profile in _built:
         return _built[profile]
-    rdir = os.path.join(VERIF, 'replay')
+    from vlib.common import harness_crate
+    rdir = harness_crate('replay')
     import shutil
     shutil.copyfile(os.path.join(REPO, 'Cargo.lock'), os.path.join(rdir, 'Cargo.lock'))
     tdir = os.path.join(BUILD, 'replay-target')
